@@ -24,7 +24,7 @@ import re
 
 KEYWORDS = ('purefn', 'define', 'ghost', 'assume', 'func', 'mode', 'requires', 'ensures', 'let', 'calls', 'modifies', 'loop',
             'effect', 'serves', 'lp', 'at', 'lemma', 'trusted', 'iterates', 'spawns', 'note', 'inline', 'twin',
-            'pure', 'opaque', 'check', 'havoc', 'frame', 'reenters', 'oncall', 'ghostsync', 'onlock')
+            'pure', 'opaque', 'check', 'havoc', 'frame', 'reenters', 'oncall', 'ghostsync', 'onlock', 'onstore', 'onrelease')
 
 TOK = re.compile(r'\s*(?:(\d+[a-zA-Z_0-9]*)|([A-Za-z_$][A-Za-z_0-9$]*)|(==>|<==>|==|!=|<=|>=|&&|\|\||<<|>>|&\^|::|->|[-+*/%&|^!<>()\[\]{}.,:=?])|("(?:[^"\\]|\\.)*"))')
 
@@ -376,7 +376,7 @@ def parse_file(lines, fname, pkg, sf=None):
                 raise ParseError('%s:%d: clause outside func' % (fname, ln))
             c = Clause(kind, text, ln, fname)
             t = text
-            if kind in ('requires', 'ensures', 'check', 'onlock'):
+            if kind in ('requires', 'ensures', 'check', 'onlock', 'onrelease'):
                 if t.startswith('assumed '):
                     # clause that callers may use but that is NOT proved for the function (listed as an assumption)
                     c.extra['assumed'] = True
@@ -450,8 +450,8 @@ def parse_file(lines, fname, pkg, sf=None):
                 if rest.strip():
                     c.expr = parse_expr(rest)
                     c.etext = rest
-            elif kind == 'oncall':
-                m = re.match(r'^(\w+)\s*:\s*(.*)$', t)
+            elif kind in ('oncall', 'onstore'):
+                m = re.match(r'^([\w.]+)\s*:\s*(.*)$', t)
                 c.extra['fn'] = m.group(1)
                 rest = m.group(2)
                 mm = TAGS.match(rest)
